@@ -319,6 +319,7 @@ func (r *replication) writeAppendEntriesReq(c *conn, req *appendReq, sendEntries
 	req.numEntries = 0
 	if sendEntries {
 		req.numEntries = min(r.ldrLastIndex-req.prevLogIndex, maxAppendEntries)
+		req.numEntries = verifMaxAppend(req.numEntries)
 		if req.numEntries > 0 && !r.log.Contains(r.nextIndex) {
 			return log.ErrNotFound
 		}
